@@ -79,7 +79,7 @@ int creds_build(CredSet *cs, int depth, int tlcp)
 
 	/* root */
 	if (sm2_key_generate(&k) != 1) return -1;
-	s = (CertSpec){ "SIM Root CA", 1, -1, X509_KU_KEY_CERT_SIGN | X509_KU_CRL_SIGN, nb - 86400, na + 86400 * 1000LL };
+	s = (CertSpec){ "SIM Root CA", 1, -1, X509_KU_KEY_CERT_SIGN | X509_KU_CRL_SIGN, nb - 1460 * 86400LL, na + 1460 * 86400LL };
 	if (creds_issue(&s, &k, NULL, &cs->root) != 1) return -1;
 
 	/* intermediates: sub[depth-2] is issued by root, sub[0] issues the leaves */
@@ -119,8 +119,98 @@ const CredSet *creds_get(int depth, int tlcp)
 	static int have[4][2];
 	if (depth < 1 || depth > 3) die("bad depth %d", depth);
 	if (!have[depth][tlcp]) {
+		/* the same credentials in every process, whatever was built before */
+		sim_ambient_entropy_seed(0xC0FFEE00 + (uint64_t)depth * 2 + (uint64_t)tlcp);
 		if (creds_build(&cache[depth][tlcp], depth, tlcp) != 1) die("creds_build failed depth=%d tlcp=%d", depth, tlcp);
 		have[depth][tlcp] = 1;
 	}
 	return &cache[depth][tlcp];
+}
+
+/* ------------------------------------------------------------ defects */
+void credopts_init(CredOpts *o, int prover)
+{
+	memset(o, 0, sizeof(*o));
+	o->prover = prover;
+	for (int i = 0; i < 2; i++) { o->sub_bc[i] = -1; o->sub_pathlen[i] = -2; o->sub_ku[i] = -1; }
+}
+
+/* Build the prover's side again under the same trusted root as `good`, with
+ * the defects in `o`; everything the verifier is configured with stays as in
+ * `good` (trust anchor, and the other side's chain). */
+int creds_derive(const CredSet *good, const CredOpts *o, CredSet *cs)
+{
+	SM2_KEY k;
+	CertSpec s;
+	const int64_t nb = SIM_T0 - 86400, na = SIM_T0 + 365 * 86400LL;
+	int depth = good->depth, tlcp = good->tlcp;
+	Ident top, sub[2], fake_ca;
+	const Ident *issuer;
+
+	*cs = *good;
+	top = good->root;
+	if (o->foreign_root) {
+		if (sm2_key_generate(&k) != 1) return -1;
+		s = (CertSpec){ o->foreign_root == 1 ? "SIM Root CA" : "Other Root CA", 1, -1,
+			X509_KU_KEY_CERT_SIGN | X509_KU_CRL_SIGN, nb - 1460 * 86400LL, na + 1460 * 86400LL };
+		if (creds_issue(&s, &k, NULL, &top) != 1) return -1;
+	}
+	issuer = &top;
+	int rebuilt = o->foreign_root != 0;
+	for (int i = depth - 2; i >= 0; i--) {
+		int changed = rebuilt || o->sub_nb[i] || o->sub_na[i] || o->sub_bc[i] >= 0 || o->sub_pathlen[i] > -2 || o->sub_ku[i] >= 0;
+		if (!changed) { sub[i] = good->sub[i]; issuer = &good->sub[i]; continue; }
+		if (sm2_key_generate(&k) != 1) return -1;
+		char cn[32];
+		snprintf(cn, sizeof(cn), "SIM Sub CA %d", i);
+		s = (CertSpec){ cn, o->sub_bc[i] >= 0 ? o->sub_bc[i] : 1,
+			o->sub_pathlen[i] > -2 ? o->sub_pathlen[i] : (i == 0 ? 0 : -1),
+			o->sub_ku[i] >= 0 ? o->sub_ku[i] : X509_KU_KEY_CERT_SIGN,
+			o->sub_nb[i] ? o->sub_nb[i] : nb, o->sub_na[i] ? o->sub_na[i] : na + 86400 * 100 };
+		if (s.bc != 1) s.pathlen = -1;
+		if (creds_issue(&s, &k, issuer, &sub[i]) != 1) return -1;
+		issuer = &sub[i];
+		rebuilt = 1;
+	}
+	int extra = 0;
+	if (o->issuer_is_leaf) {
+		/* an ordinary end-entity certificate (no basicConstraints, digitalSignature only) acting as issuer */
+		if (sm2_key_generate(&k) != 1) return -1;
+		s = (CertSpec){ "not-a-ca.sim", 0, -1, X509_KU_DIGITAL_SIGNATURE, nb, na };
+		if (creds_issue(&s, &k, issuer, &fake_ca) != 1) return -1;
+		issuer = &fake_ca;
+		extra = 1;
+	}
+	int64_t lnb = o->leaf_nb ? o->leaf_nb : nb, lna = o->leaf_na ? o->leaf_na : na;
+	Ident leaf, enc;
+	memset(&enc, 0, sizeof(enc));
+	if (sm2_key_generate(&k) != 1) return -1;
+	s = (CertSpec){ o->prover == 0 ? "server.sim" : "client.sim", 0, -1, X509_KU_DIGITAL_SIGNATURE, lnb, lna };
+	if (creds_issue(&s, &k, issuer, &leaf) != 1) return -1;
+	if (o->prover == 0 && tlcp) {
+		const Ident *enc_issuer = issuer;
+		Ident foreign;
+		if (o->enc_foreign) {
+			SM2_KEY fk;
+			if (sm2_key_generate(&fk) != 1) return -1;
+			/* same name as the genuine issuer, different key */
+			foreign = *issuer;
+			foreign.key = fk;
+			enc_issuer = &foreign;
+		}
+		if (sm2_key_generate(&k) != 1) return -1;
+		s = (CertSpec){ "server.sim", 0, -1, X509_KU_KEY_ENCIPHERMENT, lnb, lna };
+		if (creds_issue(&s, &k, enc_issuer, &enc) != 1) return -1;
+	}
+	uint8_t *chain = o->prover == 0 ? cs->srv_chain : cs->cli_chain;
+	size_t *chain_len = o->prover == 0 ? &cs->srv_chain_len : &cs->cli_chain_len;
+	*chain_len = 0;
+	append(chain, chain_len, &leaf);
+	if (o->prover == 0 && tlcp) append(chain, chain_len, &enc);
+	if (extra) append(chain, chain_len, &fake_ca);
+	for (int i = 0; i < depth - 1; i++) append(chain, chain_len, &sub[i]);
+	if (o->prover == 0) { cs->srv_sign = leaf; if (tlcp) cs->srv_enc = enc; }
+	else cs->cli_sign = leaf;
+	cs->ok = *chain_len <= TLS_MAX_CERTIFICATES_SIZE;
+	return 1;
 }
